@@ -400,19 +400,23 @@ SEQUENCE_INTERFACE = ('__len__', '__getitem__', '__setitem__', '__delitem__', 'i
                       '__iadd__', 'index', 'count', '__contains__', '__iter__', '__reversed__')
 
 
-def sequence_interface_inherited(ctx, report, RULE='C12.R13'):
+CONSTRUCTION = ('__init__', '__new__', '__attrs_post_init__')
+
+
+def sequence_interface_inherited(ctx, report, RULE='C12.R13', title=None):
     """"holds exactly the items a plain list would hold": the sequence interface of every vector is the one of ArrayBase (its
     own nine methods plus the mixins MutableSequence derives from them - ``remove`` is ``del self[self.index(x)]``, ``in`` is a
     scan with ``==``).  A subclass that redefines one of them - a look-up that compares names instead of items, a ``pop`` with
     another default - answers differently from the list, and the mixins built on the redefined method follow it.  No subclass
     defines a name of the interface (method or class level binding)."""
     model = ctx.model
-    report.rule(RULE, 'no vector class redefines a method of the sequence interface: look-ups and edits are those of ArrayBase / MutableSequence')
+    report.rule(RULE, title or 'no vector class redefines a method of the sequence interface or its construction: look-ups, edits and the initial '
+                'item list are those of ArrayBase / MutableSequence')
     ab = model.cls('ArrayBase')
     n = 0
     for c in model.all_subclasses(ab):
         n += 1
-        for name in SEQUENCE_INTERFACE:
+        for name in SEQUENCE_INTERFACE + CONSTRUCTION:
             if name in c.methods or name in c.class_vars:
                 f = c.methods.get(name)
                 report.add(RULE, '%s@redefines[%s]' % (c.construct, name),
